@@ -6,7 +6,7 @@ From Osmo Require Import Base.DecModel CL.CLPool CL.CLSwap CL.CLStep CLR.Accum C
   C08.Proj C08.Telescope C08.View C08.Static C08.Ops C08.OpInside C08.SwapTrace C08.Crux C08.Check
   C08.Claim C08.Conseq C08.Frame C08.Never C08.SwapWf C08.Dom C08.StaticOk C08.Final
   C07.Base C08.Paid C08.PaidOps C08.PaidSwap C08.PaidHist C08.Modify C08.Twins
-  C08.IncAcc C08.Inc C08.IncList C08.IncStage C08.IncOps C08.IncSwap C08.IncHist C08.UpNever C08.UpTwins C08.ClaimOk C08.ClaimInv C08.ClaimIncInv.
+  C08.IncAcc C08.Inc C08.IncList C08.IncStage C08.IncOps C08.IncSwap C08.IncHist C08.UpNever C08.UpTwins C08.ClaimOk C08.ClaimInv C08.ClaimIncInv C08.ClaimIncOk C08.ClaimIncTime.
 Open Scope Z_scope.
 
 (* ---- the reward model extends the shared pool model conservatively ---- *)
@@ -574,3 +574,43 @@ Proof.
   destruct (CII_run ops _ (CII_init sp spf ssc isc users t Hsp Hspf Hisc)) as [_ [A B]]. split; assumption.
 Qed.
 Print Assumptions C08_incentive_sign_conditions_reachable.
+
+(* forward direction of the incentive claim: prepareClaimAllIncentivesForPosition returns a result under [inc_claim_ok]: the sign
+   conditions (invariants above), block time >= last liquidity update and >= join time, one tracker per uptime accumulator on every
+   stored tick, and the range conditions on B = accumulator value x 10^18 + remaining incentives x scaling factor (an upper bound of the
+   value after the accrual): 3 B + 10^54 <= limit x 10^18 and unclaimed x 10^36 + 2 B x shares + 10^36 <= limit x 10^36 *)
+Theorem C08_prepare_claim_all_incentives_ok : forall w cur pl now lo hi id join, inc_claim_ok w cur now lo hi id join ->
+  exists res, prepare_claim_all_incentives w cur pl now lo hi id join = Some res.
+Proof. exact prepare_claim_all_incentives_ok. Qed.
+Print Assumptions C08_prepare_claim_all_incentives_ok.
+
+(* the time and shape conditions are invariants of histories without a negative time step (the model's OTime accepts any dt) *)
+Theorem C08_time_shape_reachable : forall sp spf ssc isc users t ops, 0 < sp -> 0 <= spf <= 500000000000000000 -> hist_time_ok ops ->
+  TW (rrun (rinit sp spf ssc isc users t) ops).
+Proof.
+  intros sp spf ssc isc users t ops Hsp Hspf HT. apply TW_run; [apply rinv_init; assumption|exact HT|apply TW_init].
+Qed.
+Print Assumptions C08_time_shape_reachable.
+
+(* CLAIM QUERIES NEVER FAIL, incentives: in every state reachable by a history without negative time steps the incentive claim query
+   of every open position succeeds, provided the explicit range condition [inc_range_ok] (LegacyDec overflow of the accrual / of
+   the claim).  PARTIAL: that range hypothesis *)
+Theorem C08_incentive_claim_succeeds_partial : forall sp spf ssc isc users t ops p, 0 < sp -> 0 <= spf <= 500000000000000000 -> P18 <= isc ->
+  hist_time_ok ops ->
+  let rs := rrun (rinit sp spf ssc isc users t) ops in
+  In p (s_pos (r_base rs)) -> inc_range_ok rs p -> exists x, claimable_incentives rs (ps_id p) = Some x.
+Proof. exact claimable_incentives_succeeds_reachable. Qed.
+Print Assumptions C08_incentive_claim_succeeds_partial.
+
+(* the range condition holds for the positions of the example state, whose history has no negative time step *)
+Example C08_inc_range_nonvacuous : hist_time_ok ex_ops2 /\
+  forall p, In p (s_pos (r_base (rrun ex_rs2 ex_ops2))) -> inc_range_ok (rrun ex_rs2 ex_ops2) p.
+Proof.
+  split; [unfold ex_ops2; simpl; repeat split; lia|].
+  assert (E : exists rs, rs = rrun ex_rs2 ex_ops2) by (eexists; reflexivity). destruct E as [rs E].
+  rewrite <- E. vm_compute in E. subst rs. intros p HIn. cbn [r_base s_pos] in HIn.
+  assert (NUv : NU = 6%nat) by (vm_compute; reflexivity).
+  repeat (destruct HIn as [HIn|HIn]; [subst p; split; [repeat constructor; vm_compute; discriminate|];
+    intros u d Hu; rewrite NUv in Hu; do 6 (destruct u as [|u]; [destruct d; (split; [vm_compute; discriminate|intros r R; vm_compute in R; inversion R; subst r; vm_compute; discriminate])|]); lia|]).
+  destruct HIn.
+Qed.
